@@ -18,7 +18,7 @@ LEVEL_NOTE = "trusted: the reference ledger's mirror of what the node was told"
 
 
 def runs(tier, seed):
-    return [cc.make_run("tree", tier, 64, 1500)]
+    return [cc.make_run("tree", tier, 48, 640)]
 
 
 def check(rec, st):
